@@ -184,6 +184,31 @@ func site(p *packages.Package, pos token.Pos) string {
 	return filepath.Base(filepath.Dir(position.Filename)) + "/" + filepath.Base(position.Filename) + ":" + strconv.Itoa(position.Line)
 }
 
+// funcSites names a position by its enclosing function and an ordinal inside
+// it, so that a site id survives edits elsewhere in the file (replay files and
+// recorded findings refer to these ids).
+type funcSites struct {
+	p      *packages.Package
+	f      *ast.File
+	counts map[string]int
+}
+
+func (fs *funcSites) name(pos token.Pos) string {
+	fn := "init"
+	for _, d := range fs.f.Decls {
+		if fd, ok := d.(*ast.FuncDecl); ok && fd.Pos() <= pos && pos <= fd.End() {
+			fn = fd.Name.Name
+			if r := recvName(fd); r != "" {
+				fn = r + "." + fn
+			}
+		}
+	}
+	position := fs.p.Fset.Position(pos)
+	key := filepath.Base(filepath.Dir(position.Filename)) + "/" + filepath.Base(position.Filename) + ":" + fn
+	fs.counts[key]++
+	return key + "#" + strconv.Itoa(fs.counts[key])
+}
+
 func note(pass, filename, what string) {
 	rep.Sites[pass]++
 	rep.Files[pass] = append(rep.Files[pass], what)
@@ -192,6 +217,7 @@ func note(pass, filename, what string) {
 // rewriteMapRanges wraps the range expression of every `for ... range m` whose m is a map.
 func rewriteMapRanges(p *packages.Package, f *ast.File, filename string) bool {
 	changed := false
+	fsites := &funcSites{p: p, f: f, counts: map[string]int{}}
 	ast.Inspect(f, func(n ast.Node) bool {
 		rs, ok := n.(*ast.RangeStmt)
 		if !ok {
@@ -208,7 +234,7 @@ func rewriteMapRanges(p *packages.Package, f *ast.File, filename string) bool {
 		if _, isPtr := mt.Key().Underlying().(*types.Pointer); isPtr {
 			rep.Notes = append(rep.Notes, "pointer-keyed map range at "+site(p, rs.Pos()))
 		}
-		s := site(p, rs.Pos())
+		s := fsites.name(rs.Pos())
 		rs.X = &ast.CallExpr{
 			Fun:  &ast.SelectorExpr{X: ast.NewIdent("zzsimrt"), Sel: ast.NewIdent("Range")},
 			Args: []ast.Expr{&ast.BasicLit{Kind: token.STRING, Value: strconv.Quote(s)}, rs.X},
